@@ -160,6 +160,11 @@ def genScalar (ty : FTy) (i c : Nat) : Val × Nat :=
   | .optIntZ b =>
     let cands := [0, 1, 2 ^ b - 1, 10, mix i (c + 2) % 2 ^ b]
     (if present i c then .opt (some (cands[pick i (c + 1) cands.length]!)) else .opt none, c + 3)
+  | .posInt b =>
+    let cands := [1, 2, 2 ^ b - 1, 10, 404, 1 + mix i (c + 2) % (2 ^ b - 1)]
+    (if present i c then .opt (some (cands[pick i (c + 1) cands.length]!)) else .opt none, c + 3)
+  | .enumL names =>
+    (if present i c && names.length > 0 then .opt (some (pick i (c + 1) names.length)) else .opt none, c + 2)
   | .flag _ => (.flag (present i c), c + 1)
   | .enum names =>
     (if present i c && names.length > 0 then .opt (some (pick i (c + 1) names.length)) else .opt none, c + 2)
@@ -187,6 +192,13 @@ mutual
     | .enumChild _ _ _ names m =>
       if (m || present i c) && names.length > 0 then (.opt (some (pick i (c + 1) names.length)), c + 2)
       else (.opt none, c + 2)
+    | .tagChild _ _ _ names _ _ _ textFor =>
+      if present i c && names.length > 0 then
+        -- half of the values carry a text payload (only the tags that keep one)
+        let idx := if present i (c + 2) && textFor.length > 0 then textFor[pick i (c + 1) textFor.length]! else pick i (c + 1) names.length
+        let t := if textFor.contains idx && present i (c + 3) then (pool[pick i (c + 4) pool.size]!).toList else []
+        (.record [.opt (some idx), .str t], c + 5)
+      else (.record [.opt none, .str []], c + 5)
     | .child _ fs mode =>
       if mode == .optional && !present i c then (.absent, c + 1)
       else let r := genFs fs i (c + 1); (.record r.1, r.2)
@@ -234,6 +246,19 @@ def familySize (S : Schema) : Nat :=
   let pts := (genFs S.fields 256 0).2
   if pts == 0 then 1 else if pts ≤ 8 then 2 ^ pts + 64 else 257 + 256
 
+mutual
+  /-- every tag name a schema knows (for the harness's "sibling variant" mutation) -/
+  partial def tagsF : Field → List Str
+    | .enumChild _ _ _ names _ => names
+    | .tagChild _ _ _ names skip _ _ _ => names ++ skip
+    | .child h fs _ => h.tag :: tagsFs fs
+    | .many h fs _ => h.tag :: tagsFs fs
+    | _ => []
+  partial def tagsFs : List Field → List Str
+    | [] => []
+    | f :: fs => tagsF f ++ tagsFs fs
+end
+
 /-! ## the stepper -/
 
 /-- first blank/TAB-separated field and the rest -/
@@ -256,6 +281,9 @@ def step (line : String) : Option String :=
   some <|
     if op == "codec-classes" then " ".intercalate (Classes.all.map (·.1))
     else if op == "codec-reset" then withClass cls fun _ => "ok"
+    else if op == "codec-tags" then withClass cls fun S =>
+      let ts := (tagsFs S.fields).eraseDups
+      if ts.isEmpty then "-" else " ".intercalate (ts.map fun t => hexOf t)
     else if op == "codec-norm" then withClass cls fun S =>
       match readTree arg with
       | some x => match S.norm x with
